@@ -96,7 +96,7 @@ def refusals(name):
     # bulk set with an unconvertible element at every position
     if kind in ('int', 'float', 'bool'):
         good = {'int': b'3', 'float': b'3.5', 'bool': b'on'}[kind]
-        for texts in bad_multis(good, b'x', 3 if lst else 1):
+        for texts in bad_multis(good, b'x', 3):      # scalars too: an unconvertible element anywhere refuses the whole call
             R.append(('bulk-set-bad@%s' % ''.join('g' if t == good else 'B' for t in texts), 0, ('setmulti', nm, texts), None))
         R.append(('set-from-text-unconvertible', 0, ('setopt', nm, b'x'), None))
         if kind == 'int':
